@@ -11,7 +11,7 @@ use std::net::{Ipv4Addr, SocketAddr};
 
 use p2panda_core::SigningKey;
 use p2panda_core::timestamp::{HybridTimestamp, LamportTimestamp, Timestamp};
-use p2panda_net::addrs::{AuthenticatedTransportInfo, NodeInfo, TransportAddress, UnsignedTransportInfo};
+use p2panda_net::addrs::{NodeInfo, NodeTransportInfo, TransportAddress, TransportInfo, UnsignedTransportInfo};
 use p2panda_net::utils::from_verifying_key;
 use simcore::libc_seams::{EPOCH_US, set_wall_us, wall_us};
 use simcore::{Budget, Property, Tier, ctx, ev, violation};
@@ -165,7 +165,9 @@ fn check_increment(what: &str, input: &HybridTimestamp, out: &HybridTimestamp, n
 
 struct Node {
     key: SigningKey,
-    latest: Option<AuthenticatedTransportInfo>,
+    /// The node's own address-book entry: `publish` reads its previous record from it and
+    /// inserts the new one with the same last-write-wins rule as everybody else.
+    own: NodeInfo,
     /// Remote observer that receives every record, in order.
     remote_all: NodeInfo,
     /// Remote observer that receives only some records, still in order.
@@ -185,8 +187,8 @@ impl Property for C18Prop {
     }
     fn budget(&self, tier: Tier) -> Budget {
         match tier {
-            Tier::Quick => Budget { runs: 160_000, wall_cap_s: 30 },
-            Tier::Thorough => Budget { runs: 2_400_000, wall_cap_s: 300 },
+            Tier::Quick => Budget { runs: 60_000, wall_cap_s: 30 },
+            Tier::Thorough => Budget { runs: 900_000, wall_cap_s: 300 },
         }
     }
     fn modes(&self) -> u32 {
@@ -246,7 +248,7 @@ impl Property for C18Prop {
             .map(|i| {
                 let key = signing_key(i as u64);
                 let id = key.verifying_key();
-                Node { key, latest: None, remote_all: NodeInfo::new(id), remote_some: NodeInfo::new(id), published: 0 }
+                Node { key, own: NodeInfo::new(id), remote_all: NodeInfo::new(id), remote_some: NodeInfo::new(id), published: 0 }
             })
             .collect();
         let mut w = World { cfg, seen: Vec::new(), clock_back_since_publish: vec![false; n_nodes] };
@@ -284,7 +286,10 @@ impl Property for C18Prop {
                     } else {
                         UnsignedTransportInfo::from_addrs([addr_for(&nodes[i], n)])
                     };
-                    let prev = nodes[i].latest.clone();
+                    let prev = match &nodes[i].own.transports {
+                        Some(TransportInfo::Authenticated(a)) => Some(a.clone()),
+                        _ => None,
+                    };
                     if prev.is_some() {
                         w.clock_step("increment_timestamp");
                         if wall_us() != t_new {
@@ -316,41 +321,35 @@ impl Property for C18Prop {
                     w.clock_back_since_publish[i] = false;
                     w.remember(&info.timestamp);
 
-                    // Remote that sees every record.
-                    let res = nodes[i].remote_all.update_transports(info.clone().into());
-                    let stored = nodes[i].remote_all.transports.clone();
-                    let accepted = matches!(res, Ok(true)) && stored == Some(info.clone().into());
-                    ev!("         remote-all: update_transports -> {res:?}{}", if accepted { "" } else { "  (NOT accepted as newer)" });
-                    if !accepted && strictly_newer {
-                        // The timestamp did increase, so the rejection is update_transports' own.
-                        violation(
-                            "successor-not-accepted",
-                            "NodeInfo::update_transports",
-                            format!("node {i} record #{n} with timestamp {} (previous {}) -> {res:?}", show(&info.timestamp), prev.as_ref().map(|p| show(&p.timestamp)).unwrap_or_default()),
-                        );
-                    }
-                    // Remote that sees a subset, in order. It compares against the last record it
-                    // was given, which is older than `prev`, so acceptance follows by transitivity.
-                    if ctx::chance("skip_remote_some", 1, 3) {
+                    // The node's own address book (LWW, as in iroh_endpoint/discovery.rs), the
+                    // remote that sees every record and the remote that sees a subset, in order.
+                    let skip_some = ctx::chance("skip_remote_some", 1, 3);
+                    if skip_some {
                         ctx::probe("remote_skipped_a_record");
-                        ev!("         remote-some: record not delivered");
-                    } else {
-                        let before = nodes[i].remote_some.transports.clone();
-                        let res = nodes[i].remote_some.update_transports(info.clone().into());
-                        let ok = matches!(res, Ok(true)) && nodes[i].remote_some.transports == Some(info.clone().into());
-                        ev!("         remote-some: update_transports -> {res:?}{}", if ok { "" } else { "  (NOT accepted as newer)" });
-                        let newer_than_seen = match &before {
-                            Some(b) => {
-                                use p2panda_net::addrs::NodeTransportInfo;
-                                info.timestamp > b.timestamp()
-                            }
+                    }
+                    let node = &mut nodes[i];
+                    for (name, book, skip) in [("own-book", &mut node.own, false), ("remote-all", &mut node.remote_all, false), ("remote-some", &mut node.remote_some, skip_some)] {
+                        if skip {
+                            ev!("         {name}: record not delivered");
+                            continue;
+                        }
+                        let newer_than_held = match &book.transports {
+                            Some(held) => info.timestamp > held.timestamp(),
                             None => true,
                         };
-                        if !ok && newer_than_seen {
-                            violation("successor-not-accepted", "NodeInfo::update_transports", format!("node {i} record #{n} with timestamp {} after a gap -> {res:?}", show(&info.timestamp)));
+                        let res = book.update_transports(info.clone().into());
+                        let accepted = matches!(res, Ok(true)) && book.transports == Some(info.clone().into());
+                        ev!("         {name}: update_transports -> {res:?}{}", if accepted { "" } else { "  (NOT accepted as newer)" });
+                        if !accepted && newer_than_held {
+                            // The timestamp is greater than the one held, so the rejection is
+                            // update_transports' own and not a consequence of clause 1 failing.
+                            violation("successor-not-accepted", "NodeInfo::update_transports", format!("{name} of node {i}: record #{n} with timestamp {} -> {res:?}", show(&info.timestamp)));
+                        }
+                        if !accepted && !newer_than_held && strictly_newer {
+                            // Cannot happen if `>` on HybridTimestamp is transitive; keep it visible.
+                            violation("successor-not-accepted", "timestamp order not transitive", format!("{name} of node {i}: record #{n} {}", show(&info.timestamp)));
                         }
                     }
-                    nodes[i].latest = Some(info);
                     nodes[i].published += 1;
                     max_publishes = max_publishes.max(nodes[i].published);
                     if nodes[i].published >= 2 {
